@@ -15,6 +15,7 @@ import (
 // propPkgs: packages (relative to the repository root) whose contract files carry obligations of a property.
 var propPkgs = map[string][]string{
 	"C12": {"pkg/convert"},
+	"C11": {"pkg/encoding"},
 }
 
 type Finding struct {
@@ -203,7 +204,7 @@ func runCheck(root, prop, tier string, overlay map[string][]byte) *CheckResult {
 			res.Trusted[t] = true
 		}
 	}
-	solveAll(all, tier, 16)
+	solveAll(all, tier, 8)
 
 	findings := loadFindings()
 	findingFor := func(name string) *Finding {
